@@ -70,26 +70,49 @@ def mc_u1(pid, tier):
     return (tot_d, tot_g, runs), None
 
 
-def gen_walks(w, n, seed, extra_env=None):
-    out = run_py([os.path.join(VERIF, "harness", "walk.py"), w, str(n), str(seed)], env=extra_env)
-    return json.loads(out.strip().splitlines()[-1])
+# property -> list of (family, share of the walk budget)
+FAMILIES = {
+    "C04": [("mixed", 0.6), ("session", 0.4)], "C05": [("mixed", 0.6), ("retry", 0.4)], "C06": [("mixed", 0.6), ("session", 0.4)],
+    "C07": [("subs", 0.6), ("mixed", 0.4)], "C08": [("retry", 0.6), ("mixed", 0.4)], "C09": [("mixed", 0.5), ("session", 0.5)],
+    "C10": [("mixed", 0.6), ("session", 0.4)], "C11": [("session", 0.7), ("mixed", 0.3)], "C12": [("session", 0.7), ("mixed", 0.3)],
+    "C13": [("mixed", 0.3), ("session", 0.3), ("retry", 0.2), ("keepalive", 0.2)], "C14": [("mixed", 0.7), ("session", 0.3)],
+    "C15": [("keepalive", 0.7), ("mixed", 0.3)], "C16": [("mixed", 0.5), ("session", 0.5)], "C17": [("wrap", 0.7), ("mixed", 0.3)],
+    "C18": [("mixed", 0.5), ("session", 0.5)], "C20": [("mixed", 1.0)],
+}
 
 
-def combine(w, profs=("pub", "sub", "both")):
-    """one file with all traces (TraceMon reads the profile from each line)"""
-    allp = os.path.join(w, "all.ndjson"); idx = []; n = 0; src = []
+def gen_families(pid, w, n, seed):
+    """runs the walk driver once per family; returns the list of family directories"""
+    dirs = []
+    for k, (fam, share) in enumerate(FAMILIES.get(pid, [("mixed", 1.0)])):
+        d = os.path.join(w, fam)
+        run_py([os.path.join(VERIF, "harness", "walk.py"), d, str(max(10, int(n * share))), str(seed * 101 + k), fam])
+        dirs.append((fam, d))
+    return dirs
+
+
+def combine(w, dirs, profs=("pub", "sub", "both")):
+    """merges the per-profile files of all families: <w>/<profile>.ndjson (for TraceConf) and <w>/all.ndjson (for TraceMon,
+    which reads the profile from each line); returns (all path, all index path, index, source of every trace)"""
+    idx = []; src = []; n = 0
+    allp = os.path.join(w, "all.ndjson")
     with open(allp, "w") as out:
         for p in profs:
-            path = os.path.join(w, p + ".ndjson")
-            if not os.path.exists(path):
-                continue
-            pidx = json.load(open(os.path.join(w, p + ".idx.json")))
-            with open(path) as f:
-                for line in f:
-                    out.write(line)
-            for k, (a, b) in enumerate(pidx):
-                idx.append([a + n, b + n]); src.append([p, k + 1])
-            n += pidx[-1][1] if pidx else 0
+            pidx = []; pn = 0
+            with open(os.path.join(w, p + ".ndjson"), "w") as pout:
+                for fam, d in dirs:
+                    path = os.path.join(d, p + ".ndjson")
+                    if not os.path.exists(path):
+                        continue
+                    fidx = json.load(open(os.path.join(d, p + ".idx.json")))
+                    with open(path) as f:
+                        for line in f:
+                            out.write(line); pout.write(line)
+                    for k, (a, b) in enumerate(fidx):
+                        idx.append([a + n, b + n]); pidx.append([a + pn, b + pn]); src.append([fam, p, k + 1])
+                    if fidx:
+                        n += fidx[-1][1]; pn += fidx[-1][1]
+            json.dump(pidx, open(os.path.join(w, p + ".idx.json"), "w"))
     json.dump(idx, open(os.path.join(w, "all.idx.json"), "w"))
     return allp, os.path.join(w, "all.idx.json"), idx, src
 
@@ -208,8 +231,8 @@ def main(pid, tier, seed, replay=None):
     states, trans, runs = mc
 
     w = workdir("walk-" + pid)
-    counts = gen_walks(w, WALKS[tier], seed)
-    trace, index, idx, src = combine(w)
+    dirs = gen_families(pid, w, WALKS[tier], seed)
+    trace, index, idx, src = combine(w, dirs)
     acc, rej, rmon = run_mon(pid, trace, index, "mon-" + pid)
     if len(acc) + len(rej) != len(idx):
         raise Machinery("TraceMon judged %d+%d of %d traces" % (len(acc), len(rej), len(idx)))
@@ -241,9 +264,10 @@ def main(pid, tier, seed, replay=None):
     cov = {"states": states, "transitions": trans, "traces_validated_against_impl": len(acc),
            "evaluations": len(idx), "distinct_nontrivial": len(nontriv),
            "rule": "executions of the real classes produced by seeded random walks (harness/walk.py: all API calls, broker packets in any order / duplicated / "
-                   "with foreign identifiers, timer expiries, losses, reconnects, window and timeout changes); non-trivial = the automaton of %s "
+                   "with foreign identifiers, timer expiries, losses, reconnects, window and timeout changes; families weighted towards the property: "
+                   + ", ".join(f for f, _ in FAMILIES.get(pid, [("mixed", 1)])) + "); non-trivial = the automaton of %s "
                    "evaluated at least one clause whose antecedent was true (hit counter printed by TraceMon), distinct by stimulus sequence" % pid,
-           "samples": samples, "mc_instances": runs,
+           "samples": samples, "mc_instances": runs, "driver_families": dict(collections.Counter(x[0] for x in src)),
            "conformance": {"traces_checked_against_MqttClient": conf_ok + len(div), "conforming": conf_ok, "divergences": [list(d) for d in div[:10]]},
            "tracemon": {"accepted": len(acc), "rejected": len(rej), "lines": sum(b - a + 1 for a, b in idx), "wall_s": round(rmon["wall"], 1)},
            "exhaustive": False}
